@@ -42,6 +42,53 @@ def shards(tier, seed):
     return out
 
 
+_NAMES = {}
+
+
+def names_of(lang):
+    """(month names, weekday names) of a language: first listed spelling that resolves on its own (data files + a probe)."""
+    if lang == "en":
+        return MN, WN
+    if lang not in _NAMES:
+        from dateparser.date import DateDataParser
+
+        from ..oracles import vocab
+
+        info = vocab.locale_info(lang, lang)
+        mm = vocab.meaning_map(info, True)
+        probe = DateDataParser(languages=[lang], settings={"RELATIVE_BASE": datetime(2021, 6, 16, 10, 30)})
+        mons, wds = [], []
+        for i, k in enumerate(vocab.MONTHS):
+            got = None
+            for w in info.get(k) or []:
+                try:
+                    if not any(ch.isdigit() for ch in w) and mm.get(vocab.lookup_form(w, True)) == {k} and \
+                            probe.get_date_data("13 %s 2015" % w)["date_obj"] == datetime(2015, i + 1, 13):
+                        got = w
+                        break
+                except Exception:
+                    pass
+            mons.append(got)
+        for k in vocab.WEEKDAYS:
+            got = None
+            for w in info.get(k) or []:
+                try:
+                    if not any(ch.isdigit() for ch in w) and mm.get(vocab.lookup_form(w, True)) == {k} and \
+                            probe.get_date_data(w)["date_obj"] is not None:
+                        got = w
+                        break
+                except Exception:
+                    pass
+            wds.append(got)
+        _NAMES[lang] = (mons, wds) if all(mons) and all(wds) else (MN, WN)
+    return _NAMES[lang]
+
+
+# leap years right before a century that is not one, such centuries themselves, and their neighbours: where "the previous /
+# next 29 February" is eight years away
+LEAP_EDGE_YEARS = [1796, 1800, 1804, 1896, 1900, 1904, 2096, 2100, 2104, 2196, 2200, 2000, 1996, 2004]
+
+
 def gen_base(rnd):
     by, bm = rnd.randrange(1971, 2067), rnd.randrange(1, 13)
     ml = calendar.monthrange(by, bm)[1]
@@ -60,15 +107,20 @@ def gen_case(rnd):
     c = {"base": iso(b), "pref": rnd.choice(PREFS), "kind": rnd.choice(["wd", "wd", "month", "dm", "dmt", "time", "time", "yy"]),
          "zone": "UTC", "pmoy": "current"}
     k = c["kind"]
+    # a fifth of the cases in another language (its own date order is then in force) and/or with the settings given as a
+    # Settings object instead of a dict
+    c["lang"] = rnd.choice(["fr", "de", "es"]) if rnd.random() < 0.2 and k != "yy" else "en"
+    c["inst"] = rnd.random() < 0.2
+    MNl, WNl = names_of(c["lang"])
     if k == "wd":
         w = rnd.randrange(7)
         c["w"] = w
-        c["s"] = WN[w] if rnd.random() < 0.7 else WN[w][:3]
+        c["s"] = WNl[w] if rnd.random() < 0.7 or c["lang"] != "en" else WN[w][:3]
         if rnd.random() < 0.05:
             c["pmoy"] = rnd.choice(["first", "last"])
     elif k == "month":
         c["m"] = b.month if rnd.random() < 0.35 else rnd.randrange(1, 13)
-        c["s"] = MN[c["m"] - 1]
+        c["s"] = MNl[c["m"] - 1]
         # the day preference fills the day of a month-only string; the direction must hold for the date actually returned
         c["pdom"] = rnd.choice(["current", "current", "first", "last"])
     elif k in ("dm", "dmt"):
@@ -78,8 +130,13 @@ def gen_case(rnd):
             m, d = b.month, b.day
         if rnd.random() < 0.08:
             m, d = 2, 29
+            if rnd.random() < 0.5:
+                # reference years around a century that is not a leap year
+                yy = rnd.choice(LEAP_EDGE_YEARS)
+                b = b.replace(year=yy, day=min(b.day, 28))
+                c["base"] = iso(b)
         c["m"], c["d"] = m, d
-        c["s"] = "%d %s" % (d, MN[m - 1])
+        c["s"] = "%d %s" % (d, MNl[m - 1])
         if k == "dmt":
             c["h"], c["mi"] = rnd.randrange(24), rnd.randrange(60)
             c["s"] += " %02d:%02d" % (c["h"], c["mi"])
@@ -116,21 +173,29 @@ def check_case(ctx, c):
         st["PREFER_MONTH_OF_YEAR"] = c["pmoy"]
     if c.get("pdom", "current") != "current":
         st["PREFER_DAY_OF_MONTH"] = c["pdom"]
+    lang = c.get("lang", "en")
+    if c.get("inst"):
+        from dateparser.conf import settings as default_settings
+
+        st = default_settings.replace(**st)
+        ctx.count("settings-as:Settings-object")
     PathTap.reset()
     try:
         if (b.day + b.minute) % 3 == 0:
             import dateparser
 
-            r = dateparser.parse(s, languages=["en"], settings=st)
+            r = dateparser.parse(s, languages=[lang], settings=st)
             ctx.count("via:dateparser.parse")
         else:
-            r = DateDataParser(languages=["en"], settings=st).get_date_data(s)["date_obj"]
+            r = DateDataParser(languages=[lang], settings=st).get_date_data(s)["date_obj"]
             ctx.count("via:DateDataParser")
     except Exception as e:
         r = e
     ctx.ran()
     path = PathTap.accepted("absolute-time")
     feats = {"kind": kind, "pref": pref, "path": path, "zone_utc": c["zone"] == "UTC"}
+    if lang != "en":
+        ctx.count("language:%s" % lang)
     if c.get("pdom", "current") != "current":
         feats["pdom"] = c["pdom"]
     why, exp = None, None
